@@ -120,7 +120,7 @@ Definition upd_inner (s : tsys) (l : list (nat * bool)) : tsys :=
 (* scheduler.schedule(task, delay): the new task's id is its position *)
 Definition schedule (s : tsys) (b : nat -> body) (j : job) (delay : option N) : tsys * nat :=
   let id := length (tasks s) in
-  ({| now := now s; tasks := tasks s ++ [spawn (now s) (b id) delay]; jobs := jobs s ++ [j];
+  ({| now := now s; tasks := tasks s ++ [spawn (b id) delay]; jobs := jobs s ++ [j];
       alive := alive s; down_fin := down_fin s; src_on := src_on s; src_done := src_done s; trailing := trailing s;
       handler := handler s; multi := multi s; data := data s; main_task := main_task s; inner_subs := inner_subs s |}, id).
 
@@ -193,8 +193,13 @@ Definition on_src (o : top) (s : tsys) (e : ev) : tsys * list tout :=
   | TThrottle d ed =>
       match e with
       | Next v =>
-          let s1 := match ed with ELeading => s | _ => upd_trailing s (Some v) end in
-          let closed := match handler s1 with Some h => task_finished s1 h | None => true end in
+          let closed := match handler s with Some h => task_finished s h | None => true end in
+          (* an item delivered on the leading edge is not a trailing candidate as well *)
+          let s1 := match ed with
+                    | ELeading => s
+                    | ETailing => upd_trailing s (Some v)
+                    | EAll => if closed then s else upd_trailing s (Some v)
+                    end in
           if closed then
             let '(s2, o2) := match ed with ETailing => (s1, []) | _ => slot_next s1 v end in
             let '(s3, id) := schedule s2 BOnce JTrailing (Some d) in
@@ -301,7 +306,9 @@ Definition on_unsub (o : top) (s : tsys) : tsys * list tout :=
       | Some h => (upd_handler (cancel_task s1 h) None, [])
       | None => (s1, [])
       end
-  | TThrottle _ _ => (upd_src s false (src_done s), [])       (* Unsub = S::Unsub *)
+  | TThrottle _ _ =>
+      (* ZipSubscription(source, ObserverSlot): the slot shared with the window task is emptied *)
+      (upd_alive (upd_src s false (src_done s)) false, [])
   | TBufferTime _ | TBufferCountTime _ _ =>
       (* ZipSubscription(flush task handle, source) *)
       let '(s1, o1) := match main_task s with Some t => unsub_handle o s t | None => (s, []) end in
@@ -327,7 +334,7 @@ Definition sub_closed (o : top) (s : tsys) : bool :=
   | TInterval _ | TIntervalAt _ _ | TTimer _ _ =>
       match main_task s with Some t => task_finished s t | None => true end
   | TDebounce _ => match handler s with Some _ => false | None => true end
-  | TThrottle _ _ => negb (src_on s)
+  | TThrottle _ _ => negb (alive s)             (* b = ObserverSlot *)
   | TBufferTime _ | TBufferCountTime _ _ => negb (src_on s)   (* b = the source's subscription *)
   | TRaw => true
   end.
@@ -342,11 +349,12 @@ Definition tinit (o : top) : tsys :=
   | TSubscribeOn =>
       let '(s1, id) := schedule (upd_src s0 false false) BOnce JSubscribe None in upd_main s1 (Some id)
   | TBufferTime d | TBufferCountTime _ d =>
-      let '(s1, id) := schedule s0 (fun i => BRepeat i d 0 0) JFlush None in upd_main s1 (Some id)
+      let '(s1, id) := schedule s0 (fun i => repeat_new 0 i d) JFlush None in upd_main s1 (Some id)
   | TInterval p =>
-      let '(s1, id) := schedule (upd_src s0 false false) (fun i => BRepeat i p 0 0) JInterval None in upd_main s1 (Some id)
+      let '(s1, id) := schedule (upd_src s0 false false) (fun i => repeat_new 0 i p) JInterval None in upd_main s1 (Some id)
   | TIntervalAt dl p =>
-      let '(s1, id) := schedule (upd_src s0 false false) (fun i => BRepeat i p 0 0) JInterval (Some dl) in upd_main s1 (Some id)
+      (* interval_at: RepeatTask::starting_now behind the initial delay *)
+      let '(s1, id) := schedule (upd_src s0 false false) (fun i => repeat_starting_now i p) JInterval (Some dl) in upd_main s1 (Some id)
   | TTimer v d =>
       let '(s1, id) := schedule (upd_src s0 false false) BOnce (JTimer v) (Some d) in upd_main s1 (Some id)
   | TRaw => upd_src s0 false false
@@ -385,7 +393,7 @@ Definition tstep (o : top) (s : tsys) (l : tlab) : tsys * list tout :=
   | LSpawnOnce delay =>
       match o with TRaw => let '(s1, _) := schedule s BOnce (JRaw 0) delay in (s1, []) | _ => (s, []) end
   | LSpawnRepeat p delay k =>
-      match o with TRaw => let '(s1, _) := schedule s (fun i => BRepeat i p 0 0) (JRaw k) delay in (s1, []) | _ => (s, []) end
+      match o with TRaw => let '(s1, _) := schedule s (fun i => repeat_new (now s) i p) (JRaw k) delay in (s1, []) | _ => (s, []) end
   | LSpawnSub delay =>
       match o with TRaw => let '(s1, _) := schedule s BOnce JRawSub delay in (s1, []) | _ => (s, []) end
   | LCancel t => match o with TRaw => unsub_handle o s t | _ => (s, []) end
